@@ -173,3 +173,20 @@ def extra_conditions(node: ast.AST, main: ast.expr | None, allow=None, stop: ast
             continue
         out.append(f"`{short(t, 60)}` {'holds' if holds else 'does not hold'}")
     return out
+
+
+def early_exits_before(fn: ast.FunctionDef, stmt: ast.stmt) -> list[ast.stmt]:
+    """Statements that can leave `fn` (return / raise) before `stmt` is reached: exits textually before it that are not
+    inside a nested function.  (A raise that rejects invalid arguments is an exit too; the caller decides what it accepts.)"""
+    out = []
+    for n in ast.walk(fn):
+        if isinstance(n, (ast.Return, ast.Raise)) and n.lineno < stmt.lineno:
+            inner = False
+            for a in ancestors(n):
+                if a is fn:
+                    break
+                if isinstance(a, (ast.FunctionDef, ast.AsyncFunctionDef, ast.Lambda)):
+                    inner = True
+            if not inner:
+                out.append(n)
+    return out
